@@ -364,7 +364,12 @@ func (fs *Fs) RemoveAll(path string) error {
 		}
 	}
 
-	return fs.Remove(path)
+	err = fs.Remove(path)
+	if errors.Is(err, ErrFileNotFound) {
+		// an implicit folder is gone together with its last object
+		return nil
+	}
+	return err
 }
 
 func (fs *Fs) Rename(oldName, newName string) error {
